@@ -44,6 +44,7 @@ def _strategy():
                 "req_has_addr": draw(st.sampled_from([True, True, False])),
                 "req_addr": req_addr if req_addr is not None else addrs[7] * 2 + 1,
                 "pgns": [0xEE00] + draw(st.lists(st.one_of(st.sampled_from(PGN_B), st.integers(0, 0x3FFFF)), min_size=2, max_size=3)),
+                "tx_time": draw(st.sampled_from([0.0, 0.0, 0.002, 0.005])),
                 "lat": draw(st.lists(st.sampled_from(simbus.LATENCY_GRID[1:6]), min_size=1, max_size=2))}
     return build()
 
@@ -103,7 +104,7 @@ class C14:
             calls = []
             registered = set()   # (stack, ca, callback index) currently subscribed
             for i, cas in enumerate(p["stacks"]):
-                stk = w.stack("S%d" % i, dll="j1939-21")
+                stk = w.stack("S%d" % i, dll="j1939-21", tx_time=p.get("tx_time", 0.0))
                 for k, c in enumerate(cas):
                     nv = 0x100000 + 0x1000 * i + 0x10 * k + 5
                     if c["state"] == "moved":
@@ -124,7 +125,23 @@ class C14:
             for (stk, nm, ca, nv, c) in resp:
                 if c["state"] in ("claimed", "cannot_claim", "moved"):
                     ca.start(0.0)
+            # a node without an address asks everybody for their address claim while the initial claims are being written
+            # (frame writes of the responder stacks take 0 / 2 / 5 ms): nobody has lost anything yet, so no answer and no
+            # claim may come from the null address
+            k_early = len(w.bus.log)
+            for dt_ in (0.0005, 0.001, 0.003, 0.0045, 0.2):
+                w.at(w.sim.now - w.t0 + dt_, lambda: raw.send(R.mk_id(6, 0, 0xEA, 255, 254), [0x00, 0xEE, 0x00]))
             w.run_for(0.6)
+            names = {bytes(R.name_bytes(nv)): nm for (stk, nm, ca, nv, c) in resp}
+            all_addrs = [c["addr"] for (stk, nm, ca, nv, c) in resp] + [p["req_addr"]]
+            # (only when all configured addresses differ: two CAs configured for one address do contend as soon as one answers)
+            for e in (w.bus.log[k_early:] if len(set(all_addrs)) == len(all_addrs) else []):
+                f = R.id_fields(e.can_id)
+                if e.node.startswith("S") and f["pf"] == 0xEE and f["sa"] == 254 and bytes(e.data) in names:
+                    V("claim-from-null-address-before-any-loss", "CA %s put an address-claimed frame from address 254 on the bus at "
+                      "t=%.4f although it has not lost any contest (it was asked for its claim while its initial claim was being "
+                      "written)" % (names[bytes(e.data)], e.t - w.t0), "early")
+                    break
             for (stk, nm, ca, nv, c) in resp:
                 if c["state"] in ("cannot_claim", "moved"):
                     raw.send(R.mk_id(6, 0, 0xEE, 255, c["addr"]), R.name_bytes(0x10))      # lower NAME takes the address
